@@ -95,41 +95,62 @@ pub fn judge_line(l: &mut Local, line: &[u8], decode: bool, prop: &'static str) 
         }
     }
     if prop == "C19" {
-        if let (Some(s), Some(r)) = (out.sent(), recognise(line)) {
-            if !r.embedded_star {
-                let own_first = r.payload[0];
-                match sixbit(own_first) {
-                    None => l.unjudged(),
-                    Some(want) => {
-                        // for a completed group the sentence is the LAST fragment's; only unfragmented
-                        // sentences and first fragments are claimed by the statement
-                        let claimed = r.k == 1;
-                        if claimed && s.mtype != want {
-                            let sig = if s.mtype == own_first >> 2 {
-                                "sentence-type-from-armored-char"
-                            } else {
-                                "line.sentence-type"
-                            };
-                            l.violation(sig, || {
-                                describe(line, decode, &exp, &out, &format!("sentence.message_type = {} but the first payload character {:?} encodes {}", s.mtype, own_first as char, want))
-                            });
-                        }
-                        if claimed {
-                            if let Some(m) = &s.msg {
-                                let mt = m.iter().find(|(id, _)| id.0 == "message_type").map(|(_, v)| v.clone());
-                                if mt != Some(crate::canon::Val::U(want as u64)) {
-                                    l.violation("line.decoded-type-differs", || {
-                                        describe(line, decode, &exp, &out, "decoded message type differs from the first payload character's value")
-                                    });
-                                }
-                            }
-                        }
-                    }
-                }
+        judge_c19(l, line, decode, &exp, &out, false);
+    }
+    l.sample(|| describe(line, decode, &exp, &out, "sample"));
+}
+
+/// C19 for one accepted-or-not result. `group_complete`: the result completes a multi-fragment group
+/// (then "that sentence's payload" may be read as the last fragment's own or as the concatenation).
+pub fn judge_c19(l: &mut Local, line: &[u8], decode: bool, exp: &Expect, out: &Out, group_complete: bool) {
+    let r = match recognise(line) {
+        Some(r) if !r.embedded_star => r,
+        _ => return,
+    };
+    let own_first = r.payload[0];
+    // a well-formed sentence must not be rejected because of what its first payload character is
+    if !decode && matches!(exp, Expect::Unfrag { .. } | Expect::Incomplete | Expect::Deliver { .. }) && matches!(out, Out::Err(_)) {
+        l.violation("line.rejected-by-type-character", || {
+            describe(line, decode, exp, out, &format!("a well-formed sentence whose payload starts with {:?} was rejected", own_first as char))
+        });
+        return;
+    }
+    let s = match out.sent() {
+        Some(s) => s,
+        None => return,
+    };
+    let mut firsts = vec![own_first];
+    if group_complete {
+        if let Some(&c) = s.data.first() {
+            firsts.push(c);
+        }
+    }
+    let wants: Vec<u8> = firsts.iter().filter_map(|&c| sixbit(c)).collect();
+    if wants.len() != firsts.len() {
+        l.unjudged(); // first character outside the armoring alphabet: no 6-bit value
+        return;
+    }
+    if !wants.contains(&s.mtype) {
+        // known defect (D10): the crate reports the top six bits of the armored character
+        let sig = if firsts.iter().any(|&c| s.mtype == c >> 2) {
+            "sentence-type-from-armored-char"
+        } else {
+            "line.sentence-type"
+        };
+        l.violation(sig, || {
+            describe(line, decode, exp, out, &format!("sentence.message_type = {} but the first payload character {:?} encodes {:?}", s.mtype, own_first as char, wants))
+        });
+    }
+    if r.k == 1 {
+        if let Some(m) = &s.msg {
+            let mt = m.iter().find(|(id, _)| id.0 == "message_type").map(|(_, v)| v.clone());
+            if mt != Some(crate::canon::Val::U(wants[0] as u64)) {
+                l.violation("line.decoded-type-differs", || {
+                    describe(line, decode, exp, out, "decoded message type differs from the first payload character's value")
+                });
             }
         }
     }
-    l.sample(|| describe(line, decode, &exp, &out, "sample"));
 }
 
 // ---------------------------------------------------------------------------------------------
@@ -450,18 +471,20 @@ pub fn line_mut2(prop: &'static str, nseeds: usize) -> Space {
     )
 }
 
-/// LINE-CKSUM: seeds × all 256 transmitted values × { 2-digit upper, lower, 8-digit padded,
-/// 1-digit when possible }.
+/// LINE-CKSUM: seeds × all 256 low-byte values × 8 spellings of the checksum field: 2-digit upper,
+/// lower, 8-digit zero-padded, 1-digit, 3 digits with a non-zero leading digit (value > 0xFF), 8
+/// digits with non-zero high digits, 10 digits (only the first 8 are read), 9 digits whose first 8
+/// are the padded value.
 pub fn line_cksum(prop: &'static str) -> Space {
     let sd: Vec<Vec<u8>> = mut_seeds().into_iter().filter(|s| recognise(s).is_some()).collect();
     Space::new(
         "LINE-CKSUM",
-        &format!("{} seeds x all 256 transmitted checksum values x 4 spellings x decode", sd.len()),
-        sd.len() as u64 * 256 * 4 * 2,
+        &format!("{} seeds x all 256 transmitted checksum values x 8 spellings (incl. values > 0xFF and > 8 digits) x decode", sd.len()),
+        sd.len() as u64 * 256 * 8 * 2,
         move |i, l| {
             let mut r = Radix(i);
             let decode = r.take(2) == 1;
-            let fmt = r.take(4);
+            let fmt = r.take(8);
             let v = r.take(256) as u8;
             let s = &sd[r.0 as usize];
             let star = s.iter().rposition(|&c| c == b'*').unwrap();
@@ -470,13 +493,17 @@ pub fn line_cksum(prop: &'static str) -> Space {
                 0 => format!("*{:02X}", v),
                 1 => format!("*{:02x}", v),
                 2 => format!("*{:08X}", v),
-                _ => {
+                3 => {
                     if v >= 16 {
                         l.skip();
                         return;
                     }
                     format!("*{:X}", v)
                 }
+                4 => format!("*1{:02X}", v),
+                5 => format!("*F00A00{:02X}", v),
+                6 => format!("*00000000{:02X}", v),
+                _ => format!("*000000{:02X}7", v),
             };
             m.extend_from_slice(tail.as_bytes());
             judge_line(l, &m, decode, prop);
@@ -645,6 +672,56 @@ pub fn line_type_decodable(prop: &'static str) -> Space {
     )
 }
 
+/// TYPECHAR-GROUP: all 256 first payload bytes on the continuation and final fragments of a group:
+/// history F(3,1) F(3,2) F(3,3) (and F(2,1) F(2,2)) with the byte as first payload character of
+/// fragment 2 and 3, on one parser; the sentence-level type of each result is judged.
+pub fn line_typechar_group(prop: &'static str) -> Space {
+    let _ = prop;
+    Space::new(
+        "TYPECHAR-GROUP",
+        "all 256 first payload bytes x {3-fragment group, 2-fragment group} x 2 sequence ids x decode: type reported on the continuation (Incomplete) and on the completing (Complete) sentence",
+        256 * 2 * 2 * 2,
+        move |i, l| {
+            let mut r = Radix(i);
+            let decode = r.take(2) == 1;
+            let id: &[u8] = if r.take(2) == 0 { b"" } else { b"4" };
+            let n = if r.take(2) == 0 { 3u32 } else { 2 };
+            let c = r.take(256) as u8;
+            if c == b',' || c == b'*' {
+                l.skip();
+                return;
+            }
+            let mut p = Parser::new();
+            let mut m = MState::Closed;
+            for k in 1..=n {
+                let payload: Vec<u8> = if k == 1 { b"1000".to_vec() } else { vec![c, b'0', b'0'] };
+                let line = sentence(n, k, id, &payload, 0);
+                let (exp, m1) = asm::step(&m, &line, decode, subj::NOALLOC);
+                let out = p.parse(&line, decode);
+                m = m1;
+                l.outcome(out.digest());
+                if k == n {
+                    l.class(out.class());
+                    if out.is_ok() {
+                        l.nontrivial();
+                    }
+                }
+                if let Out::Panic(_) = out {
+                    l.violation("line.panic", || describe(&line, decode, &exp, &out, "panic"));
+                    return;
+                }
+                // with decoding on, the completing sentence may legitimately fail to decode
+                if !(decode && k == n) || out.is_ok() {
+                    judge_c19(l, &line, decode && false, &exp, &out, k == n);
+                }
+                if !out.is_ok() {
+                    break;
+                }
+            }
+        },
+    )
+}
+
 pub fn c02(tier: Tier) -> Vec<Space> {
     let mut v = vec![line_cksum("C02"), line_mut1("C02"), line_field_edit("C02"), line_seeds("C02")];
     if tier == Tier::Thorough {
@@ -679,5 +756,5 @@ pub fn c08(tier: Tier) -> Vec<Space> {
 }
 
 pub fn c19(_tier: Tier) -> Vec<Space> {
-    vec![line_typechar("C19"), line_type_decodable("C19"), line_seeds("C19")]
+    vec![line_typechar("C19"), line_type_decodable("C19"), line_typechar_group("C19"), line_seeds("C19")]
 }
